@@ -4,7 +4,8 @@ From Verif.model Require Import AvmArith.
 Import ListNotations.
 Open Scope N_scope.
 
-Ltac Zify.zify_post_hook ::= Z.to_euclidean_division_equations.
+(* lia extended with the Euclidean-division equations, used only where div/mod occur *)
+Ltac dlia := zify; Z.to_euclidean_division_equations; lia.
 
 Lemma W_val : W = 18446744073709551616. Proof. reflexivity. Qed.
 Lemma W_pow : W = 2 ^ 64. Proof. reflexivity. Qed.
@@ -18,7 +19,7 @@ Proof.
   intros a b Ha Hb. unfold opPlus, add64. rewrite N.add_0_r. rewrite W_val in *.
   destruct (N.ltb_spec (a + b) 18446744073709551616).
   - rewrite N.div_small, N.mod_small by assumption. reflexivity.
-  - destruct (N.ltb_spec 0 ((a + b) / 18446744073709551616)); [reflexivity | lia].
+  - destruct (N.ltb_spec 0 ((a + b) / 18446744073709551616)); [reflexivity | dlia].
 Qed.
 
 Lemma addw_spec : forall a b,
@@ -29,7 +30,7 @@ Lemma addw_exact : forall a b, a < W -> b < W ->
   exists hi lo, opAddw a b = Ok [U hi; U lo] /\ hi * W + lo = a + b /\ lo < W /\ hi <= 1.
 Proof.
   intros a b Ha Hb. rewrite addw_spec. do 2 eexists. split; [reflexivity|].
-  rewrite W_val in *. lia.
+  rewrite W_val in *. dlia.
 Qed.
 
 Lemma minus_spec : forall a b, a < W -> b < W ->
@@ -37,7 +38,7 @@ Lemma minus_spec : forall a b, a < W -> b < W ->
 Proof.
   intros a b Ha Hb. unfold opMinus, sub64. rewrite W_val in *.
   destruct (N.ltb_spec a b), (N.leb_spec b a); try lia; try reflexivity.
-  do 3 f_equal. lia.
+  do 3 f_equal. dlia.
 Qed.
 
 Lemma mul_spec : forall a b, a < W -> b < W ->
@@ -47,7 +48,7 @@ Proof.
   destruct (N.ltb_spec (a * b) 18446744073709551616).
   - rewrite N.div_small, N.mod_small by assumption. reflexivity.
   - destruct (N.ltb_spec 0 (a * b / 18446744073709551616)); [reflexivity|]. exfalso.
-    generalize dependent (a * b). intros. lia.
+    generalize dependent (a * b). intros. dlia.
 Qed.
 
 Lemma mulw_spec : forall a b,
@@ -59,7 +60,7 @@ Lemma mulw_exact : forall a b, a < W -> b < W ->
 Proof.
   intros a b Ha Hb. rewrite mulw_spec. do 2 eexists. split; [reflexivity|].
   assert (a * b < W * W) by nia.
-  rewrite W_val in *. generalize dependent (a * b). intros. lia.
+  rewrite W_val in *. generalize dependent (a * b). intros. dlia.
 Qed.
 
 Lemma div_spec : forall a b, opDiv a b = if b =? 0 then Err else Ok [U (a / b)].
@@ -170,6 +171,50 @@ Definition sqrt_inv (x : N) (k : nat) (st : N * N * N) : Prop :=
     sq * 4 ^ N.of_nat k = low * W /\ sq < W /\
     root = 2 * r /\ r * r <= xi /\ xi < (r + 1) * (r + 1) /\ rem + r * r = xi.
 
+(* pure arithmetic facts used by the invariant (small contexts keep the arithmetic tactics fast) *)
+Lemma sqrt_digit_split : forall sq T low Q,
+  0 < T -> 0 < Q -> sq * (4 * T) = low * (4 * Q) -> sq < 4 * Q ->
+  sq / Q < 4 /\
+  exists low', low = (sq / Q) * T + low' /\ low' < T /\ ((sq mod Q) * 4) * T = low' * (4 * Q).
+Proof.
+  intros sq T low Q HT HQ E Hsq.
+  assert (Hdm : sq = Q * (sq / Q) + sq mod Q) by (apply N.div_mod; lia).
+  assert (Hs0 : sq mod Q < Q) by (apply N.mod_lt; lia).
+  set (d := sq / Q) in *. set (s0 := sq mod Q) in *.
+  split.
+  - apply N.div_lt_upper_bound; lia.
+  - assert (E1 : sq * T = low * Q) by lia.
+    assert (E2 : (d * T) * Q + s0 * T = low * Q) by (rewrite <- E1, Hdm; lia).
+    assert (Hge : d * T <= low).
+    { apply (N.mul_le_mono_pos_r _ _ Q); [assumption|]. lia. }
+    exists (low - d * T). split; [lia|].
+    assert (E3 : (low - d * T) * Q = s0 * T).
+    { rewrite N.mul_sub_distr_r. lia. }
+    split.
+    + apply (N.mul_lt_mono_pos_r Q); [assumption|]. rewrite E3.
+      rewrite (N.mul_comm T Q). apply N.mul_lt_mono_pos_r; assumption.
+    + lia.
+Qed.
+
+Lemma sq_lt_bound : forall r, r * r < 4611686018427387904 -> r < 2147483648.
+Proof.
+  intros r H. destruct (N.lt_ge_cases r 2147483648) as [|Hge]; [assumption|].
+  assert (2147483648 * 2147483648 <= r * r) by (apply N.mul_le_mono; assumption). lia.
+Qed.
+
+Lemma sqrt_digit : forall r rem xi d,
+  r * r <= xi -> xi < (r + 1) * (r + 1) -> rem + r * r = xi -> d < 4 ->
+  rem <= 2 * r /\
+  (4 * r < rem * 4 + d ->
+     (2 * r + 1) * (2 * r + 1) <= 4 * xi + d /\ 4 * xi + d < (2 * r + 1 + 1) * (2 * r + 1 + 1) /\
+     (rem * 4 + d - (4 * r + 1)) + (2 * r + 1) * (2 * r + 1) = 4 * xi + d) /\
+  (rem * 4 + d <= 4 * r ->
+     (2 * r) * (2 * r) <= 4 * xi + d /\ 4 * xi + d < (2 * r + 1) * (2 * r + 1) /\
+     (rem * 4 + d) + (2 * r) * (2 * r) = 4 * xi + d).
+Proof.
+  intros r rem xi d H1 H2 H3 Hd. subst xi. repeat split; intros; lia.
+Qed.
+
 Lemma sqrt_step_inv : forall x k st, x < W ->
   sqrt_inv x (S k) st -> sqrt_inv x k (sqrt_step st).
 Proof.
@@ -179,48 +224,51 @@ Proof.
   assert (HT : 0 < T) by (subst T; apply N.neq_0_lt_0, N.pow_nonzero; lia).
   set (Q := 4611686018427387904).   (* 2^62 *)
   assert (HWQ : W = 4 * Q) by (rewrite W_val; reflexivity).
-  (* digits *)
-  set (d := sq / Q). set (s0 := sq mod Q).
-  assert (Hsqd : sq = d * Q + s0 /\ s0 < Q).
-  { subst d s0 Q. split; [|apply N.mod_lt; lia]. rewrite N.mul_comm. apply N.div_mod. lia. }
-  destruct Hsqd as [Hsqd Hs0].
-  assert (Hd : d < 4) by nia.
-  assert (HsT : sq * T = low * Q) by nia.
-  assert (Hlow_ge : d * T <= low) by nia.
-  set (low' := low - d * T).
-  assert (Elow : low = d * T + low') by (subst low'; lia).
-  assert (Hs0T : s0 * T = low' * Q) by nia.
-  assert (Hlow' : low' < T) by nia.
-  (* bounds on the root *)
-  assert (Hxi : xi * 4 < W) by nia.
-  assert (Hrb : r < 2147483648) by nia.
-  assert (Hremb : rem <= 2 * r) by nia.
+  assert (HQ : 0 < Q) by (subst Q; lia).
+  rewrite HWQ in Esq, Hsq.
+  destruct (sqrt_digit_split sq T low Q HT HQ Esq Hsq) as (Hd & low' & Elow & Hlow' & Esq').
+  assert (Hsqd : sq = Q * (sq / Q) + sq mod Q) by (apply N.div_mod; lia).
+  assert (Hs0 : sq mod Q < Q) by (apply N.mod_lt; lia).
+  remember (sq / Q) as d eqn:Ed. remember (sq mod Q) as s0 eqn:Es0.
+  assert (Hxi : xi * 4 < 4 * Q).
+  { assert (xi * 4 * 1 <= xi * 4 * T) by (apply N.mul_le_mono_l; lia). rewrite <- HWQ. lia. }
+  assert (Hrb : r < 2147483648) by (apply sq_lt_bound; subst Q; lia).
+  destruct (sqrt_digit r rem xi d Hr1 Hr2 Erem Hd) as (Hremb & Hone & Hzero).
   (* symbolic evaluation of one iteration *)
   unfold sqrt_step, shl64, shr64, sub64.
   rewrite !N.shiftl_mul_pow2, N.shiftr_div_pow2.
-  change (2 ^ 1) with 2. change (2 ^ 2) with 4. change (2 ^ 62) with Q. fold d.
-  assert (E1 : (root * 2) mod W = 4 * r) by (rewrite N.mod_small; rewrite ?W_val; lia).
-  assert (E2 : (rem * 4) mod W = rem * 4) by (apply N.mod_small; rewrite W_val; lia).
+  change (2 ^ 1) with 2. change (2 ^ 2) with 4. change (2 ^ 62) with Q. rewrite <- Ed.
+  assert (HWv : W = 18446744073709551616) by apply W_val.
+  assert (E1 : (root * 2) mod W = 4 * r).
+  { rewrite N.mod_small; clear - Eroot Hrb HWv; lia. }
+  assert (E2 : (rem * 4) mod W = rem * 4).
+  { apply N.mod_small. clear - Hremb Hrb HWv. lia. }
   assert (E3 : (sq * 4) mod W = s0 * 4).
-  { rewrite Hsqd, HWQ. replace ((d * Q + s0) * 4) with (s0 * 4 + d * (4 * Q)) by lia.
-    rewrite N.mod_add by lia. apply N.mod_small. lia. }
+  { rewrite Hsqd, HWQ. replace ((Q * d + s0) * 4) with (s0 * 4 + d * (4 * Q)) by (clear; lia).
+    rewrite N.mod_add by (clear - HQ; lia). apply N.mod_small. clear - Hs0. lia. }
   rewrite E1, E2, E3.
   assert (E4 : N.lor (rem * 4) d = rem * 4 + d).
   { change 4 with (2 ^ 2). apply lor_shifted_low. exact Hd. }
   rewrite E4.
   assert (E5 : N.lor (4 * r) 1 = 4 * r + 1).
-  { replace (4 * r) with ((2 * r) * 2 ^ 1) by (change (2 ^ 1) with 2; lia).
+  { replace (4 * r) with ((2 * r) * 2 ^ 1) by (change (2 ^ 1) with 2; clear; lia).
     apply lor_shifted_low. reflexivity. }
+  assert (Hs04 : s0 * 4 < W) by (clear - Hs0 HWQ; rewrite HWQ; lia).
+  assert (Ex' : x = (4 * xi + d) * T + low') by (clear - Ex Elow; lia).
+  assert (Esq'' : s0 * 4 * T = low' * W) by (rewrite HWQ; exact Esq').
   destruct (N.ltb_spec (4 * r) (rem * 4 + d)) as [Hlt|Hge].
   - (* the next digit of the root is 1 *)
-    rewrite E5. exists (4 * xi + d), low', (2 * r + 1).
+    rewrite E5. destruct (Hone Hlt) as (G1 & G2 & G3).
+    exists (4 * xi + d), low', (2 * r + 1).
     assert (((rem * 4 + d) + W - (4 * r + 1)) mod W = rem * 4 + d - (4 * r + 1)) as ->.
-    { replace (rem * 4 + d + W - (4 * r + 1)) with ((rem * 4 + d - (4 * r + 1)) + 1 * W) by lia.
-      rewrite N.mod_add by apply W_nz. apply N.mod_small. rewrite W_val. lia. }
-    assert ((4 * r + 2) mod W = 4 * r + 2) as -> by (apply N.mod_small; rewrite W_val; lia).
-    repeat split; try nia. rewrite W_val. lia.
-  - exists (4 * xi + d), low', (2 * r).
-    repeat split; try nia. rewrite W_val. lia.
+    { replace (rem * 4 + d + W - (4 * r + 1)) with ((rem * 4 + d - (4 * r + 1)) + 1 * W)
+        by (clear - Hlt HWv; lia).
+      rewrite N.mod_add by apply W_nz. apply N.mod_small. clear - Hremb Hrb Hd HWv. lia. }
+    assert ((4 * r + 2) mod W = 4 * r + 2) as -> by (apply N.mod_small; clear - Hrb HWv; lia).
+    repeat split; try assumption; clear; lia.
+  - destruct (Hzero Hge) as (G1 & G2 & G3).
+    exists (4 * xi + d), low', (2 * r).
+    repeat split; try assumption; clear; lia.
 Qed.
 
 Lemma sqrt_loop_inv : forall x k st, x < W ->
@@ -401,10 +449,9 @@ Proof.
     + intros [H1 [->|H2]].
       * change (2 ^ 0) with 1 in H1. lia.
       * assert (N.log2 n = k - 1); [|destruct (N.eq_dec k 0); [subst; change (2 ^ 0) with 1 in H1|]; lia].
-        apply N.log2_unique'. exists (n - 2 ^ (k - 1)). split.
-        -- lia.
-        -- destruct (N.eq_dec k 0) as [->|Hk]; [change (2 ^ 0) with 1 in H1; lia|].
-           replace k with (N.succ (k - 1)) in H1 by lia. rewrite N.pow_succ_r' in H1. lia.
+        apply N.log2_unique; [lia|]. split; [assumption|].
+        destruct (N.eq_dec k 0) as [->|Hk]; [change (2 ^ 0) with 1 in H1; lia|].
+        replace (N.succ (k - 1)) with k by lia. assumption.
 Qed.
 
 Lemma bitlen_u_spec : forall a, opBitLen (U a) = Ok [U (bitlen_of a)].
